@@ -197,6 +197,11 @@ impl ArenaAllocator for ChunkAllocator {
         self.replace_chain(new_chain);
         self.current_ptr.set(current_ptr);
     }
+
+    #[cfg(feature = "verif_hooks")]
+    fn verif_quarantine(&mut self) {
+        mem::forget(mem::take(self));
+    }
 }
 
 #[cfg(test)]
